@@ -127,6 +127,53 @@ def makeMultiplier (w x : QRec) : Option (MulImpl × QRec) :=
   | some (impl, t) => some (impl, mkImpl impl w x t.toRec)
   | none => none
 
+/-! ## floating-point value sets (specification side; nothing of the existing model reads them) -/
+
+/-- IEEE-754 binary interchange formats by total width: `(p, emax)` = precision including the hidden
+    bit and maximal exponent.  qtools itself builds `FloatingPoint(bits=16)` ("fp16") and
+    `FloatingPoint(bits=32)` ("fp32"); 64 is listed because the class accepts any width. -/
+def floatFmt (bits : Int) : Option (Nat × Int) :=
+  if bits = 16 then some (11, 15) else if bits = 32 then some (24, 127)
+  else if bits = 64 then some (53, 1023) else none
+
+/-- finite values of the binary format with precision `p` and maximal exponent `emax`
+    (`emin = 1 − emax`, subnormals included): `m·2^e`, `|m| < 2^p`, `emin − (p−1) ≤ e ≤ emax − (p−1)`. -/
+def ValFloatFmt (p : Nat) (emax : Int) (v : Rat) : Prop :=
+  ∃ m e : Int, -((2 ^ p : Nat) : Int) < m ∧ m < ((2 ^ p : Nat) : Int) ∧
+    (1 - emax) - ((p : Int) - 1) ≤ e ∧ e ≤ emax - ((p : Int) - 1) ∧ v = (m : Rat) * pow2 e
+
+/-- values of a floating-point record of width `bits`; a width that is no interchange format carries
+    no value claim (`True`, as `Val` has for every mode-5 record). -/
+def ValFloat (bits : Int) (v : Rat) : Prop :=
+  match floatFmt bits with
+  | some (p, emax) => ValFloatFmt p emax v
+  | none => True
+
+/-- executable twin of `ValFloatFmt` for the driver (cross-checked against numpy's IEEE casts by the
+    harness): strip the factors of two of the numerator, then shift the odd part as far as the
+    exponent ceiling demands. -/
+def valFloatFmtB (p : Nat) (emax : Int) (v : Rat) : Bool :=
+  if v = 0 then true
+  else
+    let d := v.den
+    if d ≠ 2 ^ d.log2 then false
+    else
+      let n := v.num.natAbs
+      -- n = odd * 2^t
+      let t : Nat := (List.range (n.log2 + 1)).foldl
+        (fun (acc : Nat) (i : Nat) => if n % 2 ^ (i + 1) = 0 then i + 1 else acc) 0
+      let odd : Nat := n / 2 ^ t
+      let e0 : Int := (t : Int) - (d.log2 : Int)
+      let ehi : Int := emax - ((p : Int) - 1)
+      let elo : Int := (1 - emax) - ((p : Int) - 1)
+      let s : Int := if e0 - ehi > 0 then e0 - ehi else 0
+      decide (e0 - s ≥ elo) && decide (odd * 2 ^ s.toNat < 2 ^ p)
+
+def valFloatB (bits : Int) (v : Rat) : Bool :=
+  match floatFmt bits with
+  | some (p, emax) => valFloatFmtB p emax v
+  | none => true
+
 /-- The implementation kinds the docstring table of `make_multiplier` calls for,
     written independently of `mulTable` from the operand *kinds*:
     float with anything → floating multiplier; fixed×fixed → multiplier;
